@@ -21,8 +21,12 @@ import (
 
 	"google.golang.org/genproto/googleapis/api/annotations"
 	"google.golang.org/genproto/googleapis/api/serviceconfig"
+	"google.golang.org/grpc"
+	"google.golang.org/grpc/credentials/insecure"
 	ghealth "google.golang.org/grpc/health"
 	healthpb "google.golang.org/grpc/health/grpc_health_v1"
+	"google.golang.org/grpc/reflection"
+	"google.golang.org/grpc/test/bufconn"
 	"google.golang.org/protobuf/encoding/protojson"
 	"google.golang.org/protobuf/proto"
 	"google.golang.org/protobuf/reflect/protoreflect"
@@ -136,14 +140,56 @@ type HEv struct {
 
 func runHealthz(id int, seed int64, steps int) []interface{} {
 	r := newRng(seed, id, 991)
+	// three ways the health service gets there: registered locally; locally next to a rule of the user's own for a health
+	// method (AddHealthz must still add its rules); through two backend connections one of which is dropped half way
+	variant := id % 3
 	sc := &serviceconfig.Service{}
+	ownPath := ""
+	if variant == 1 {
+		sc.Http = &annotations.Http{}
+		if id%2 == 0 {
+			own := httpRule("GET", "/livez")
+			own.Selector = "grpc.health.v1.Health.Check"
+			sc.Http.Rules = append(sc.Http.Rules, own)
+			ownPath = "/livez"
+		} else {
+			own := httpRule("GET", "/v1/health:watch")
+			own.Selector = "grpc.health.v1.Health.Watch"
+			sc.Http.Rules = append(sc.Http.Rules, own)
+		}
+	}
 	health.AddHealthz(sc)
 	mux, err := larking.NewMux(larking.ServiceConfigOption(sc))
 	if err != nil {
 		panic(err)
 	}
 	hs := ghealth.NewServer()
-	if err := larking.VerifRegisterService(mux, &healthpb.Health_ServiceDesc, hs); err != nil {
+	var dropAt int = -1
+	var conns []*grpc.ClientConn
+	if variant == 2 {
+		for k := 0; k < 2; k++ {
+			lis := bufconn.Listen(1 << 16)
+			gs := grpc.NewServer()
+			healthpb.RegisterHealthServer(gs, hs) // both backends answer from the same health server
+			reflection.Register(gs)
+			go gs.Serve(lis)
+			defer gs.Stop()
+			cc, err := grpc.NewClient("passthrough:///h", grpc.WithContextDialer(func(ctx context.Context, _ string) (net.Conn, error) { return lis.DialContext(ctx) }),
+				grpc.WithTransportCredentials(insecure.NewCredentials()))
+			if err != nil {
+				panic(err)
+			}
+			defer cc.Close()
+			ctx, cancel := context.WithTimeout(context.Background(), 10*time.Second)
+			err = mux.RegisterConn(ctx, cc)
+			cancel()
+			if err != nil {
+				panic(err)
+			}
+			conns = append(conns, cc)
+		}
+		dropAt = steps / 3
+	} else if err := larking.VerifRegisterService(mux, &healthpb.Health_ServiceDesc, hs); err != nil {
 		panic(err)
 	}
 	evs := []interface{}{HEv{Ev: "HReset", Case: id}}
@@ -160,6 +206,9 @@ func runHealthz(id int, seed int64, steps int) []interface{} {
 	}()
 	watches := 0
 	for i := 0; i < steps; i++ {
+		if i == dropAt {
+			mux.DropConn(context.Background(), conns[r.Intn(2)]) // the other backend keeps the routes alive
+		}
 		if r.Intn(6) == 0 && watches < 6 {
 			// Watch over a WebSocket session: the first frame is the current status of the service named in the query
 			watches++
@@ -193,7 +242,9 @@ func runHealthz(id int, seed int64, steps int) []interface{} {
 								}
 							}
 						} else {
-							ev.Status = fmt.Sprintf("no text frame (%v, % x)", err, hd)
+							rest := make([]byte, int(hd[1]&0x7f))
+							io.ReadFull(br, rest)
+							ev.Status = fmt.Sprintf("no text frame (%v, % x) %q", err, hd, rest)
 						}
 					}
 				}
@@ -211,7 +262,11 @@ func runHealthz(id int, seed int64, steps int) []interface{} {
 			continue
 		}
 		s := append(services, "nope")[r.Intn(len(services)+1)]
-		req := httptest.NewRequest("GET", "http://verif.test/v1/healthz", nil)
+		hpath := "/v1/healthz"
+		if ownPath != "" && r.Intn(3) == 0 {
+			hpath = ownPath // the user's own binding of Check works next to healthz
+		}
+		req := httptest.NewRequest("GET", "http://verif.test"+hpath, nil)
 		q := url.Values{}
 		if s != "" || r.Bool() {
 			q.Set("service", s)
